@@ -1254,6 +1254,332 @@ Proof.
     rewrite E, task_clean_cleans. rewrite <- app_assoc. reflexivity.
 Qed.
 
+(* ================================================================== look-ups are transparent *)
+(* [strip w] = w without the look-up entries of its trace *)
+Definition is_read (e : event) : bool := match e with ERead _ _ _ _ => true | _ => false end.
+Definition strip (w : world) : world :=
+  {| w_fs := w_fs w; w_db := w_db w; w_ev := filter (fun e => negb (is_read e)) (w_ev w) |}.
+
+Lemma strip_emit w e : is_read e = false -> strip (emit w e) = emit (strip w) e.
+Proof. intros H. unfold strip, emit. simpl. rewrite filter_app. simpl. rewrite H. reflexivity. Qed.
+
+Lemma strip_emit_read w t i u b : strip (emit w (ERead t i u b)) = strip w.
+Proof. unfold strip, emit. simpl. rewrite filter_app. simpl. rewrite app_nil_r. reflexivity. Qed.
+
+Lemma strip_set_fs w fs : strip (set_fs w fs) = set_fs (strip w) fs.
+Proof. reflexivity. Qed.
+
+Lemma strip_db_remove w n : strip (db_remove w n) = db_remove (strip w) n.
+Proof. reflexivity. Qed.
+
+Lemma do_reads_strip t i : forall us w, strip (do_reads t i us w) = strip w.
+Proof. induction us as [|u r IH]; intros w; simpl; auto. rewrite IH. apply strip_emit_read. Qed.
+
+Lemma clean_actions_rd_strip rd t dry : forall acts i w,
+  strip (clean_actions_rd rd t dry i acts w) = clean_actions t dry i acts (strip w).
+Proof.
+  induction acts as [|a r IH]; intros i w; simpl; auto. rewrite IH. f_equal.
+  destruct (negb dry || a).
+  - rewrite do_reads_strip. rewrite !strip_emit; auto.
+  - rewrite strip_emit; auto.
+Qed.
+
+Lemma clean_target_strip t dry w p : strip (clean_target t dry w p) = clean_target t dry (strip w) p.
+Proof.
+  unfold clean_target. simpl. destruct (fs_get (w_fs w) p) as [[|]|]; auto.
+  - destruct dry; [apply strip_emit; reflexivity|]. rewrite strip_set_fs, strip_emit; auto.
+  - destruct (fs_nonempty (w_fs w) p); [apply strip_emit; reflexivity|].
+    destruct dry; [apply strip_emit; reflexivity|]. rewrite strip_set_fs, strip_emit; auto.
+Qed.
+
+Lemma clean_targets_strip t dry w : strip (clean_targets t dry w) = clean_targets t dry (strip w).
+Proof.
+  unfold clean_targets. generalize (sort_desc (t_targets t)) as L. intros L. revert w.
+  induction L as [|p r IH]; intros w; simpl; auto. rewrite IH, clean_target_strip. reflexivity.
+Qed.
+
+Lemma task_clean_rd_strip rd t dry w : strip (task_clean_rd rd t dry w) = task_clean t dry (strip w).
+Proof.
+  unfold task_clean_rd, task_clean. destruct (t_clean t) as [acts|].
+  - rewrite (clean_actions_rd_strip rd), strip_emit; auto.
+  - rewrite clean_targets_strip, strip_emit; auto.
+Qed.
+
+Lemma clean_tasks_rd_strip rd dry forget : forall ts cleaned w,
+  clean_tasks dry forget ts cleaned (strip w) =
+  (fst (clean_tasks_rd rd dry forget ts cleaned w), strip (snd (clean_tasks_rd rd dry forget ts cleaned w))).
+Proof.
+  induction ts as [|t r IH]; intros cleaned w; simpl; auto.
+  destruct (mem (t_name t) cleaned); [apply IH|].
+  set (w2 := if (forget && negb dry)%bool then db_remove (task_clean_rd rd t dry w) (t_name t) else task_clean_rd rd t dry w).
+  assert (E : (if (forget && negb dry)%bool then db_remove (task_clean t dry (strip w)) (t_name t)
+               else task_clean t dry (strip w)) = strip w2).
+  { unfold w2. rewrite <- (task_clean_rd_strip rd). destruct (forget && negb dry)%bool; auto. }
+  rewrite E, IH. destruct (clean_tasks_rd rd dry forget r (t_name t :: cleaned) w2) as [l w3]. reflexivity.
+Qed.
+
+(* the command with look-ups = the command without, up to the look-up entries of the trace *)
+Lemma T_lookups_transparent : forall pat (fnmatch : name -> pat -> bool) rd tb o w,
+  clean_execute pat fnmatch tb o (strip w) =
+  match clean_execute_rd pat fnmatch rd tb o w with
+  | Ok (l, w') => Ok (l, strip w')
+  | KeyErr => KeyErr | InvalidCmd => InvalidCmd | OutOfFuel => OutOfFuel
+  end.
+Proof.
+  intros pat fnmatch rd tb o w. unfold clean_execute, clean_execute_rd.
+  destruct (clean_order pat fnmatch tb o) as [order| | |]; auto.
+  destruct (lookup_all tb order) as [ts|]; auto.
+  rewrite (clean_tasks_rd_strip rd). destruct (clean_tasks_rd rd (o_dryrun o) (o_forget o) ts [] w) as [l w']. reflexivity.
+Qed.
+
+Lemma clean_execute_rd_Ok pat (fnmatch : name -> pat -> bool) rd tb o w l w' :
+  clean_execute_rd pat fnmatch rd tb o w = Ok (l, w') ->
+  clean_execute pat fnmatch tb o (strip w) = Ok (l, strip w') /\
+  exists ts, clean_tasks_rd rd (o_dryrun o) (o_forget o) ts [] w = (l, w').
+Proof.
+  intros H. split; [rewrite (T_lookups_transparent pat fnmatch rd), H; reflexivity|].
+  unfold clean_execute_rd in H. destruct (clean_order pat fnmatch tb o) as [order| | |]; try discriminate.
+  destruct (lookup_all tb order) as [ts|]; try discriminate. exists ts. inversion H. reflexivity.
+Qed.
+
+Lemma task_clean_rd_db rd t dry w : w_db (task_clean_rd rd t dry w) = w_db w.
+Proof.
+  change (w_db (strip (task_clean_rd rd t dry w)) = w_db (strip w)). rewrite task_clean_rd_strip.
+  exact (proj1 (task_clean_spec t dry (strip w))).
+Qed.
+
+Lemma do_reads_frame t i : forall us w,
+  w_fs (do_reads t i us w) = w_fs w /\ w_db (do_reads t i us w) = w_db w.
+Proof.
+  induction us as [|u r IH]; intros w; simpl; auto.
+  destruct (IH (emit w (ERead t i u (mem u (w_db w))))) as [A B]. rewrite A, B. simpl. auto.
+Qed.
+
+(* ================================================================== DB look-ups of clean actions *)
+(* [reads_ok F db done tr]: every look-up in the trace [tr] found a record iff the record is in [db] and
+   has not been forgotten: F = records of cleaned tasks are forgotten (--forget without --dry-run);
+   done = the tasks whose Task.clean was entered so far, the reader itself is still running *)
+Fixpoint reads_ok (F : bool) (db done : list name) (tr : list event) : Prop :=
+  match tr with
+  | [] => True
+  | EClean t :: r => reads_ok F db (t :: done) r
+  | ERead t i u b :: r =>
+      b = (mem u db && negb (F && mem u done && negb (N.eqb u t)))%bool /\ reads_ok F db done r
+  | _ :: r => reads_ok F db done r
+  end.
+
+Lemma mem_app_b x a b : mem x (a ++ b) = (mem x a || mem x b)%bool.
+Proof. unfold mem. apply existsb_app. Qed.
+
+Lemma mem_rem_b x y l : mem x (rem y l) = (mem x l && negb (N.eqb x y))%bool.
+Proof.
+  destruct (mem x (rem y l)) eqn:E.
+  - apply mem_In in E. apply rem_In in E. destruct E as [A B]. apply mem_In in A. rewrite A.
+    apply N.eqb_neq in B. rewrite B. reflexivity.
+  - apply mem_false_In in E. destruct (mem x l) eqn:A; auto. destruct (N.eqb x y) eqn:B; auto.
+    exfalso. apply E. apply rem_In. split; [apply mem_In; exact A|apply N.eqb_neq; exact B].
+Qed.
+
+Lemma reads_ok_app F db : forall a done b,
+  reads_ok F db done (a ++ b) <-> reads_ok F db done a /\ reads_ok F db (rev (cleans a) ++ done) b.
+Proof.
+  induction a as [|e a IH]; intros done b; simpl.
+  - tauto.
+  - destruct e; simpl; try (rewrite IH; tauto).
+    + rewrite IH. rewrite <- app_assoc. simpl. tauto.
+Qed.
+
+(* what one Task.clean adds to the trace after its EClean entry: no other entry, look-ups by this task
+   only, each finding what is saved when the task starts *)
+Definition quiet (n : name) (db : list name) (e : event) : Prop :=
+  match e with
+  | EClean _ => False
+  | ERead t _ u b => t = n /\ b = mem u db
+  | _ => True
+  end.
+
+Lemma do_reads_tr n db i : forall us w, w_db w = db ->
+  exists tr, w_ev (do_reads n i us w) = w_ev w ++ tr /\ Forall (quiet n db) tr.
+Proof.
+  induction us as [|u r IH]; intros w Hdb; simpl.
+  - exists []. rewrite app_nil_r. auto.
+  - destruct (IH (emit w (ERead n i u (mem u (w_db w)))) Hdb) as (tr & E & Q).
+    exists (ERead n i u (mem u (w_db w)) :: tr). split.
+    + rewrite E. simpl. rewrite <- app_assoc. reflexivity.
+    + constructor; auto. simpl. rewrite Hdb. auto.
+Qed.
+
+Lemma clean_actions_tr rd n db dry : forall acts i w, w_db w = db ->
+  exists tr, w_ev (clean_actions_rd rd n dry i acts w) = w_ev w ++ tr /\ Forall (quiet n db) tr.
+Proof.
+  induction acts as [|a r IH]; intros i w Hdb; simpl.
+  - exists []. rewrite app_nil_r. auto.
+  - destruct (negb dry || a).
+    + destruct (do_reads_tr n db i (rd n i) (emit (emit w (EAnnounce n i)) (EExec n i (if a then Some dry else None))) Hdb)
+        as (tr1 & E1 & Q1).
+      destruct (IH (S i) (do_reads n i (rd n i) (emit (emit w (EAnnounce n i)) (EExec n i (if a then Some dry else None)))))
+        as (tr2 & E2 & Q2).
+      { destruct (do_reads_frame n i (rd n i) (emit (emit w (EAnnounce n i)) (EExec n i (if a then Some dry else None)))) as [_ D].
+        rewrite D. exact Hdb. }
+      exists (EAnnounce n i :: EExec n i (if a then Some dry else None) :: tr1 ++ tr2). split.
+      * rewrite E2, E1. simpl. repeat rewrite <- app_assoc. reflexivity.
+      * constructor; [exact I|]. constructor; [exact I|]. apply Forall_app. auto.
+    + destruct (IH (S i) (emit w (EAnnounce n i)) Hdb) as (tr2 & E2 & Q2).
+      exists (EAnnounce n i :: tr2). split.
+      * rewrite E2. simpl. rewrite <- app_assoc. reflexivity.
+      * constructor; [exact I|auto].
+Qed.
+
+Lemma clean_target_tr n db dry w p : w_db w = db ->
+  w_db (clean_target n dry w p) = db /\
+  exists tr, w_ev (clean_target n dry w p) = w_ev w ++ tr /\ Forall (quiet n db) tr.
+Proof.
+  intros Hdb. unfold clean_target. destruct (fs_get (w_fs w) p) as [[|]|].
+  - destruct dry; simpl; (split; [exact Hdb|]); eexists; (split; [reflexivity|]); constructor; simpl; auto.
+  - destruct (fs_nonempty (w_fs w) p).
+    + simpl. split; [exact Hdb|]. eexists. split; [reflexivity|]. constructor; simpl; auto.
+    + destruct dry; simpl; (split; [exact Hdb|]); eexists; (split; [reflexivity|]); constructor; simpl; auto.
+  - split; [exact Hdb|]. exists []. rewrite app_nil_r. auto.
+Qed.
+
+Lemma clean_targets_fold_tr n db dry : forall L w, w_db w = db ->
+  exists tr, w_ev (fold_left (clean_target n dry) L w) = w_ev w ++ tr /\ Forall (quiet n db) tr.
+Proof.
+  induction L as [|p r IH]; intros w Hdb; simpl.
+  - exists []. rewrite app_nil_r. auto.
+  - destruct (clean_target_tr n db dry w p Hdb) as (D & tr1 & E1 & Q1).
+    destruct (IH _ D) as (tr2 & E2 & Q2). exists (tr1 ++ tr2). split.
+    + rewrite E2, E1. rewrite <- app_assoc. reflexivity.
+    + apply Forall_app. auto.
+Qed.
+
+Lemma task_clean_tr rd t dry w :
+  exists tr, w_ev (task_clean_rd rd t dry w) = w_ev w ++ EClean (t_name t) :: tr /\
+             Forall (quiet (t_name t) (w_db w)) tr.
+Proof.
+  unfold task_clean_rd. destruct (t_clean t) as [acts|].
+  - destruct (clean_actions_tr rd (t_name t) (w_db w) dry acts 0 (emit w (EClean (t_name t))) eq_refl) as (tr & E & Q).
+    exists tr. split; auto. rewrite E. simpl. rewrite <- app_assoc. reflexivity.
+  - unfold clean_targets.
+    destruct (clean_targets_fold_tr (t_name t) (w_db w) dry (sort_desc (t_targets t)) (emit w (EClean (t_name t))) eq_refl)
+      as (tr & E & Q).
+    exists tr. split; auto. rewrite E. simpl. rewrite <- app_assoc. reflexivity.
+Qed.
+
+Lemma quiet_cleans n db tr : Forall (quiet n db) tr -> cleans tr = [].
+Proof.
+  induction 1 as [|e r He _ IH]; auto. destruct e; simpl in *; auto. contradiction.
+Qed.
+
+Lemma quiet_reads_ok F n db tr : Forall (quiet n db) tr -> reads_ok F db [n] tr.
+Proof.
+  induction 1 as [|e r He _ IH]; simpl; auto. destruct e; simpl in *; auto.
+  - contradiction.
+  - destruct He as [-> ->]. split; auto. simpl. rewrite orb_false_r.
+    destruct (N.eqb u n); simpl; rewrite ?andb_false_r, ?andb_true_r; reflexivity.
+Qed.
+
+(* the tasks that look something up in a trace *)
+Definition reader_not_in (c : list name) (e : event) : Prop :=
+  match e with ERead t _ _ _ => ~ In t c | _ => True end.
+
+Lemma quiet_reader n db c tr : ~ In n c -> Forall (quiet n db) tr -> Forall (reader_not_in c) tr.
+Proof.
+  intros Hn H. induction H as [|e r He _ IH]; constructor; auto.
+  destruct e; simpl in *; auto. destruct He as [-> _]. exact Hn.
+Qed.
+
+(* a record forgotten before the trace began = a task cleaned before the trace began *)
+Lemma reads_ok_shift F db t0 : forall tr done,
+  Forall (reader_not_in [t0]) tr ->
+  reads_ok F (if F then rem t0 db else db) done tr -> reads_ok F db (done ++ [t0]) tr.
+Proof.
+  induction tr as [|e r IH]; intros done Hr H; simpl; auto.
+  inversion Hr as [|? ? He Hr']; subst.
+  destruct e; simpl in *; try (apply IH; assumption).
+  - apply (IH (t :: done)); assumption.
+  - destruct H as [Hb H]. split; [|apply IH; assumption]. rewrite Hb.
+    assert (Hne : N.eqb t0 t = false) by (apply N.eqb_neq; intros ->; apply He; left; reflexivity).
+    destruct F; simpl; auto.
+    rewrite mem_rem_b, mem_app_b. simpl. rewrite orb_false_r.
+    destruct (N.eqb u t0) eqn:E0.
+    + apply N.eqb_eq in E0. subst u. rewrite Hne. simpl. rewrite orb_true_r. simpl.
+      rewrite andb_false_r. reflexivity.
+    + simpl. rewrite orb_false_r, andb_true_r. reflexivity.
+Qed.
+
+Lemma clean_tasks_reads rd dry forget : forall ts cleaned w l w',
+  clean_tasks_rd rd dry forget ts cleaned w = (l, w') ->
+  exists tr, w_ev w' = w_ev w ++ tr /\ Forall (reader_not_in cleaned) tr /\
+             reads_ok (forget && negb dry) (w_db w) [] tr.
+Proof.
+  induction ts as [|t r IH]; intros cleaned w l w' H; simpl in H.
+  - inversion H; subst. exists []. rewrite app_nil_r. simpl. auto.
+  - destruct (mem (t_name t) cleaned) eqn:Em; [exact (IH _ _ _ _ H)|].
+    apply mem_false_In in Em.
+    set (w1 := task_clean_rd rd t dry w) in *.
+    set (w2 := if (forget && negb dry)%bool then db_remove w1 (t_name t) else w1) in *.
+    destruct (clean_tasks_rd rd dry forget r (t_name t :: cleaned) w2) as [l' w3] eqn:Er.
+    inversion H; subst l w'. clear H.
+    destruct (IH _ _ _ _ Er) as (tr2 & E2 & R2 & K2).
+    destruct (task_clean_tr rd t dry w) as (tr1 & E1 & Q1). fold w1 in E1.
+    pose proof (task_clean_rd_db rd t dry w) as D1. fold w1 in D1.
+    assert (Eev : w_ev w2 = w_ev w1) by (unfold w2; destruct (forget && negb dry)%bool; reflexivity).
+    assert (Edb : w_db w2 = if (forget && negb dry)%bool then rem (t_name t) (w_db w) else w_db w).
+    { unfold w2. destruct (forget && negb dry)%bool; simpl; rewrite D1; reflexivity. }
+    exists (EClean (t_name t) :: tr1 ++ tr2). split; [|split].
+    + rewrite E2, Eev, E1. rewrite <- app_assoc. reflexivity.
+    + constructor; [exact I|]. apply Forall_app. split.
+      * exact (quiet_reader _ _ _ _ Em Q1).
+      * eapply Forall_impl; [|exact R2]. intros e He. destruct e; simpl in *; auto.
+    + simpl. apply reads_ok_app. split; [exact (quiet_reads_ok _ _ _ _ Q1)|].
+      rewrite (quiet_cleans _ _ _ Q1). simpl.
+      apply (reads_ok_shift _ _ (t_name t) tr2 []).
+      * eapply Forall_impl; [|exact R2]. intros e He. destruct e; simpl in *; auto.
+        intros [X|[]]. apply He. left. exact X.
+      * rewrite <- Edb. exact K2.
+Qed.
+
+Lemma reads_ok_split F db : forall pre done t i u b post,
+  reads_ok F db done (pre ++ ERead t i u b :: post) ->
+  b = (mem u db && negb (F && (mem u (cleans pre) || mem u done) && negb (N.eqb u t)))%bool.
+Proof.
+  intros pre done t i u b post H. apply reads_ok_app in H. destruct H as [_ H]. simpl in H.
+  destruct H as [H _]. rewrite H. rewrite mem_app_b.
+  assert (X : mem u (rev (cleans pre)) = mem u (cleans pre)).
+  { destruct (mem u (cleans pre)) eqn:E.
+    - apply mem_In. apply in_rev. rewrite rev_involutive. apply mem_In. exact E.
+    - apply mem_false_In. intros Y. apply in_rev in Y. apply mem_In in Y. congruence. }
+  rewrite X. reflexivity.
+Qed.
+
+(* A look-up made by a clean action finds a record iff one was saved before the command and it has not
+   been forgotten by then: the record of a task cleaned earlier in the same `clean --forget` is gone; the
+   task's own record is still there while its clean actions run *)
+Lemma T_reads : forall pat (fnmatch : name -> pat -> bool) rd tb o w l w',
+  clean_execute_rd pat fnmatch rd tb o w = Ok (l, w') ->
+  exists tr, w_ev w' = w_ev w ++ tr /\
+  forall pre t i u b post, tr = pre ++ ERead t i u b :: post ->
+    (b = true <-> In u (w_db w) /\
+                  ~ (o_forget o = true /\ o_dryrun o = false /\ In u (cleans pre) /\ u <> t)).
+Proof.
+  intros pat fnmatch rd tb o w l w' H.
+  destruct (clean_execute_rd_Ok pat fnmatch rd tb o w l w' H) as (_ & ts & Hc).
+  destruct (clean_tasks_reads rd _ _ _ _ _ _ _ Hc) as (tr & E & _ & K).
+  exists tr. split; [exact E|]. intros pre t i u b post ->.
+  rewrite (reads_ok_split _ _ _ _ _ _ _ _ _ K). simpl. rewrite orb_false_r.
+  rewrite andb_true_iff, negb_true_iff. rewrite mem_In.
+  split.
+  - intros [A B]. split; [exact A|]. intros (F1 & F2 & F3 & F4).
+    rewrite F1, F2 in B. simpl in B. apply mem_In in F3. rewrite F3 in B. simpl in B.
+    apply N.eqb_neq in F4. rewrite F4 in B. discriminate.
+  - intros [A B]. split; [exact A|].
+    destruct (o_forget o); simpl; auto. destruct (o_dryrun o); simpl; auto.
+    destruct (mem u (cleans pre)) eqn:E3; simpl; auto.
+    destruct (N.eqb u t) eqn:E4; simpl; auto.
+    exfalso. apply B. repeat split; auto. apply mem_In; exact E3. apply N.eqb_neq; exact E4.
+Qed.
+
 (* ================================================================== acyclic tables *)
 Lemma rank_acyclic {A} (R : A -> A -> Prop) (rank : A -> nat) :
   (forall x y, R x y -> rank y < rank x) -> acyclic R.
@@ -1364,6 +1690,38 @@ Proof.
   destruct (o_forget o); destruct (o_dryrun o); simpl; intuition congruence.
 Qed.
 
+(* ---- the theorems above for the command whose clean actions look at the DB ---- *)
+Lemma cleans_strip w : cleans (w_ev (strip w)) = cleans (w_ev w).
+Proof.
+  unfold strip. simpl. induction (w_ev w) as [|e r IH]; auto.
+  destruct e; simpl; try rewrite IH; auto.
+Qed.
+
+Lemma T_once_rd : forall pat (fnmatch : name -> pat -> bool) rd tb o w l w',
+  clean_execute_rd pat fnmatch rd tb o w = Ok (l, w') ->
+  clean_order pat fnmatch tb o = Ok l /\ NoDup l /\ cleans (w_ev w') = cleans (w_ev w) ++ l.
+Proof.
+  intros pat fnmatch rd tb o w l w' H. destruct (clean_execute_rd_Ok pat fnmatch rd tb o w l w' H) as [H0 _].
+  destruct (T_once pat fnmatch tb o _ _ _ H0) as (A & B & C). rewrite !cleans_strip in C. auto.
+Qed.
+
+Lemma T_dryrun_frame_rd : forall pat (fnmatch : name -> pat -> bool) rd tb o w l w',
+  clean_execute_rd pat fnmatch rd tb o w = Ok (l, w') -> o_dryrun o = true ->
+  w_fs w' = w_fs w /\ forall x, In x (w_db w') <-> In x (w_db w).
+Proof.
+  intros pat fnmatch rd tb o w l w' H Hd. destruct (clean_execute_rd_Ok pat fnmatch rd tb o w l w' H) as [H0 _].
+  exact (T_dryrun_frame pat fnmatch tb o _ _ _ H0 Hd).
+Qed.
+
+Lemma T_forget_exact_rd : forall pat (fnmatch : name -> pat -> bool) rd tb o w l w',
+  clean_execute_rd pat fnmatch rd tb o w = Ok (l, w') ->
+  forall x, In x (w_db w') <->
+            In x (w_db w) /\ ~ (o_forget o = true /\ o_dryrun o = false /\ In x l).
+Proof.
+  intros pat fnmatch rd tb o w l w' H. destruct (clean_execute_rd_Ok pat fnmatch rd tb o w l w' H) as [H0 _].
+  exact (T_forget_exact pat fnmatch tb o _ _ _ H0).
+Qed.
+
 Lemma T_fs_frame : forall pat (fnmatch : name -> pat -> bool) tb o w l w',
   clean_execute pat fnmatch tb o w = Ok (l, w') ->
   (forall q, fs_get (w_fs w') q = fs_get (w_fs w) q \/ fs_get (w_fs w') q = None) /\
@@ -1429,6 +1787,12 @@ Definition ex_tb : table := [
   {| t_name := 4%N; t_task_dep := []; t_setup := []; t_subtask_of := Some 3%N; t_clean := Some [false]; t_targets := [] |};
   {| t_name := 5%N; t_task_dep := [1%N]; t_setup := []; t_subtask_of := None; t_clean := Some [true]; t_targets := [] |} ].
 Definition no_match (_ : name) (_ : unit) : bool := false.
+(* the (first) clean action of 1 looks up 5, 1, 2; that of 2 looks up 1, 2; that of 5 looks up 1 *)
+Definition ex_rd (t : name) (i : nat) : list name :=
+  match i with
+  | O => if N.eqb t 1 then [5; 1; 2]%N else if N.eqb t 2 then [1; 2]%N else if N.eqb t 5 then [1%N] else []
+  | _ => []
+  end.
 Definition ex_opts (dry dep all fg : bool) (pos : list (sel unit)) (dflt : option (list (sel unit))) : opts unit :=
   {| o_dryrun := dry; o_cleandep := dep; o_cleanall := all; o_forget := fg; o_pos := pos; o_sel := dflt |}.
 Definition ex_world : world :=
